@@ -556,6 +556,31 @@ func fromParsedNumber(v ssa.Value, d int) bool {
 				return true
 			}
 		}
+	case *ssa.UnOp:
+		// a number parked in a field of the rule being built (fd.Proto) and read back: what was stored there
+		if fa, ok := x.X.(*ssa.FieldAddr); ok && x.Op == token.MUL && x.Parent() != nil {
+			f := core.FieldOfAddr(fa)
+			found := false
+			core.Instrs(x.Parent(), func(in ssa.Instruction) {
+				if st, ok := in.(*ssa.Store); ok && !found {
+					if sfa, ok := st.Addr.(*ssa.FieldAddr); ok && core.FieldOfAddr(sfa) == f && fromParsedNumber(st.Val, d+1) {
+						found = true
+					}
+				}
+			})
+			return found
+		}
+	case *ssa.Call:
+		// an own helper that returns the parsed number (possibly besides keyword constants)
+		if callee := x.Call.StaticCallee(); callee != nil && callee.Blocks != nil && d < 4 {
+			found := false
+			core.Instrs(callee, func(in ssa.Instruction) {
+				if r, ok := in.(*ssa.Return); ok && len(r.Results) > 0 && fromParsedNumber(r.Results[0], d+1) {
+					found = true
+				}
+			})
+			return found
+		}
 	}
 	return false
 }
